@@ -61,6 +61,23 @@ def run(res, tier, seed):
     for _ in range(n):
         s, _ = prog.program(rng, sloppy=rng.choice([0, 0.2]), multi_ret=False)
         cases.append(mutate(rng, s))
+    # every way an instruction can name a label, with the label undefined (and, as a control,
+    # defined): the error must name it at its occurrence whatever the instruction form
+    forms = ["j {L}", "jal {L}", "jal ra, {L}", "jal x0, {L}", "jal zero, {L}", "jal t0, {L}", "jal s1, {L}",
+             "jal a0, {L}", "call {L}", "la t0, {L}", "la a0, {L}", "beq a0, a1, {L}", "bne a0, zero, {L}",
+             "blt a0, a1, {L}", "bgeu zero, a0, {L}", "beqz a0, {L}", "bnez a0, {L}", "bgtz a0, {L}",
+             "bleu a0, a1, {L}", "bgt a0, a1, {L}"]
+    for f in forms:
+        body = "main:\n    li a0, 1\n    li a1, 2\n    {USE}\n    addi a0, a0, 1\nnext:\n    li a7, 10\n    ecall\n"
+        cases.append((body.replace("{USE}", f.replace("{L}", "nowhere")), ("undefined", {"nowhere"})))
+        is_call = f.startswith(("jal {L}", "jal ra", "call"))
+        # control: the same form with a defined target (a proper function for the call forms)
+        if is_call:
+            cases.append((body.replace("{USE}", f.replace("{L}", "fn")) + "fn:\n    addi a0, a0, 1\n    ret\n", ("ok", None)))
+        else:
+            cases.append((body.replace("{USE}", f.replace("{L}", "next")), ("ok", None)))
+        cases.append((body.replace("{USE}", f.replace("{L}", "nowhere")) + "    " + f.replace("{L}", "elsewhere") + "\n",
+                      ("undefined", {"nowhere", "elsewhere"})))
     inputs = [[("m.s", t)] for t, _ in cases]
     impl, models, bad = correspondence("parse,cfg,run", inputs)
     first = None
